@@ -205,6 +205,7 @@ pub fn run_families(rep: &mut Report, families: Vec<SeqSpec>, budget: Duration, 
                 let ok = matches!((&a, &b), (Some((ca, _)), Some((cb, _))) if ca == clause && cb == clause);
                 if ok {
                     validated += 1;
+                    rep.validated_findings += 1;
                 } else {
                     rep.machinery.push(format!(
                         "{}: finding {:?} {} did not reproduce identically on plain re-execution: {:?} / {:?}",
